@@ -18,6 +18,7 @@ import (
 	"github.com/attestantio/go-eth2-client/api"
 	apiv1 "github.com/attestantio/go-eth2-client/api/v1"
 	"github.com/attestantio/go-eth2-client/spec/phase0"
+	"github.com/attestantio/vouch/services/accountmanager"
 	"github.com/attestantio/vouch/services/attester"
 	attstd "github.com/attestantio/vouch/services/attester/standard"
 	nullmetrics "github.com/attestantio/vouch/services/metrics/null"
@@ -57,6 +58,7 @@ type History struct {
 	Dirk          bool   `json:"dirk_like_accounts"`
 	NVal          int    `json:"validators"`
 	Merge         bool   `json:"duties_built_by_MergeDuties"`
+	RealManager   bool   `json:"accounts_behind_the_real_account_manager,omitempty"`
 	Strategy      string `json:"attestation_data_strategy,omitempty"` // best | majority | first: the real strategy over two scripted nodes feeds the attester
 	Runs          []Run  `json:"runs"`
 }
@@ -113,6 +115,7 @@ type sim struct {
 	runOf   map[phase0.Root]int
 	curRun  sync.Map // goroutine-less: data provider is told the run through the context
 	real    *signerstd.Service
+	mgr     accountmanager.ValidatingAccountsProvider // the real account manager, in some histories
 }
 
 type reply struct {
@@ -209,13 +212,31 @@ func (s *sim) ValidatingAccountsForEpoch(_ context.Context, _ phase0.Epoch) (map
 	return nil, errors.New("not used")
 }
 
-func (s *sim) ValidatingAccountsForEpochByIndex(ctx context.Context, _ phase0.Epoch, indices []phase0.ValidatorIndex) (map[phase0.ValidatorIndex]e2wtypes.Account, error) {
+func (s *sim) ValidatingAccountsForEpochByIndex(ctx context.Context, epoch phase0.Epoch, indices []phase0.ValidatorIndex) (map[phase0.ValidatorIndex]e2wtypes.Account, error) {
 	ri, _ := ctx.Value(ctxKey{}).(int)
 	run := s.h.Runs[ri]
 	if run.AcctErr {
 		return nil, errors.New("scripted accounts failure")
 	}
 	out := map[phase0.ValidatorIndex]e2wtypes.Account{}
+	if s.mgr != nil {
+		got, err := s.mgr.ValidatingAccountsForEpochByIndex(ctx, epoch, indices)
+		if err != nil {
+			return nil, err
+		}
+		for idx, a := range got {
+			miss := false
+			for _, m := range run.Missing {
+				if m == uint64(idx) {
+					miss = true
+				}
+			}
+			if !miss {
+				out[idx] = a
+			}
+		}
+		return out, nil
+	}
 	for _, idx := range indices {
 		miss := false
 		for _, m := range run.Missing {
@@ -287,7 +308,7 @@ func (s *sim) SubmitAttestations(ctx context.Context, attestations []*phase0.Att
 	ri, _ := ctx.Value(ctxKey{}).(int)
 	var sub []Att
 	for _, a := range attestations {
-		sub = append(sub, s.describe(a))
+		sub = append(sub, s.describe(a, ri))
 	}
 	s.mu.Lock()
 	s.trace.Submits = append(s.trace.Submits, sub)
@@ -298,7 +319,7 @@ func (s *sim) SubmitAttestations(ctx context.Context, attestations []*phase0.Att
 	return nil
 }
 
-func (s *sim) describe(a *phase0.Attestation) Att {
+func (s *sim) describe(a *phase0.Attestation, ri int) Att {
 	out := Att{Signer: -1, raw: a}
 	if a == nil || a.Data == nil || a.Data.Source == nil || a.Data.Target == nil {
 		return out
@@ -316,6 +337,18 @@ func (s *sim) describe(a *phase0.Attestation) Att {
 		ids = append(ids, v)
 	}
 	sort.Slice(ids, func(i, j int) bool { return ids[i] < ids[j] })
+	// the validators whose assignment the attestation carries are tried first (a duty may hold hundreds)
+	if ri >= 0 && ri < len(s.h.Runs) {
+		var first []uint64
+		for _, e := range s.h.Runs[ri].Entries {
+			if e.Committee == out.Committee && e.Position < out.BitLen && a.AggregationBits.BitAt(e.Position) {
+				if _, ours := s.accts[e.Validator]; ours {
+					first = append(first, e.Validator)
+				}
+			}
+		}
+		ids = append(first, ids...)
+	}
 	for _, v := range ids {
 		if harness.VerifySig(s.accts[v], root[:], a.Signature) {
 			out.Signer = int64(v)
@@ -423,6 +456,8 @@ func Generate(r *rand.Rand) *History {
 			h.Runs[i].DataKind2 = dataKinds[r2.Intn(len(dataKinds))]
 		}
 	}
+	// a quarter have the accounts looked up through the real wallet / Dirk account manager and validators manager
+	h.RealManager = r2.Intn(4) == 0
 	return h
 }
 
@@ -447,6 +482,14 @@ func Execute(h *History, r *rand.Rand) (*Trace, error) {
 		s.byPub[a.Pub48()] = v
 	}
 	var err error
+	if h.RealManager {
+		var done func()
+		s.mgr, done, err = newManager(h.Dirk, s.accts)
+		if err != nil {
+			return nil, err
+		}
+		defer done()
+	}
 	s.real, err = signerstd.New(ctx, signerstd.WithLogLevel(zerolog.Disabled), signerstd.WithMonitor(nullmetrics.New()), signerstd.WithClientMonitor(nullmetrics.New()),
 		signerstd.WithSpecProvider(specP), signerstd.WithDomainProvider(harness.RecDomains{}))
 	if err != nil {
